@@ -1,6 +1,6 @@
 /-
 Model of /repo/lib/litonlylzma/litonlylzma.go (literal-only LZMA / XZ), function by function.
-Core Lean only.  Written ONCE over `Nat` (fixed-width Go arithmetic made explicit with `% 2^32`
+Core Lean only.  Written ONCE over `Nat` (fixed-width Go arithmetic made explicit with `&&& 0xFFFFFFFF`
 where the Go code can truncate), `UInt8` bytes, `Array` for `append`-style outputs and the probability
 tables, `List UInt8` for the `src = src[1:]`-style inputs.  The same definitions are compiled into the
 driver `wv_c17` and used by the theorems in `Props/C17.lean` (no separate "fast" copy).
@@ -20,6 +20,9 @@ Modelling decisions (each is a representation choice, not a behaviour change):
   at every use, the product and the mask are scalar operations.
 * `crc32.ChecksumIEEE` is `crc32` below (reflected table-driven CRC-32, polynomial 0xEDB88320).
 * errors are the enum `Err`.
+* the decoder's chunk loop `for { … }` gets `fuel = len(src) + 1`; theorem `xz_chunk_loop_fuel_irrelevant`
+  shows the fuel never runs out (every round consumes a byte).  `decodeByte`'s `for index < 0x100` and
+  `encodeByte`'s `for i := 7; i >= 0; i--` are the 8-round recursions `decodeByteLoop`/`encodeByteLoop`.
 -/
 namespace WuffsVerif.Lzma
 
